@@ -7,6 +7,23 @@ import re
 
 HERE = os.path.dirname(os.path.dirname(os.path.abspath(__file__)))
 REMARKS = {
+ 'C17_p3': 'NOT CAUGHT, deliberately: the callback shortens the array being visited (see C17_m1)',
+ 'C02_p3': 'NOT CAUGHT, deliberately: needs a custom double format with an UPPER-case exponent (%E/%G), for which the unchanged tree already produces invalid JSON ("1E+20.0", DESIGN 8.3); the generator uses lower-case formats only',
+ 'C08_p3': 'NOT CAUGHT: the symptom (a serializer returns text with a hole after a failed buffer growth) is exactly the listed known finding C08/serializer-ignores-printbuf-failure, whose key deliberately covers every serializer site; a new site of the same kind cannot be told apart while that finding stands',
+ 'C04_p3': 'NOT CAUGHT, deliberately: json_tokener_error_desc() with an out-of-range code; no property speaks about it',
+ 'C20_p3': 'first run: MISSED (json_object_to_file[_ext] never got a NULL object); FDF mode 3: -1 and nothing created, descriptors balanced',
+ 'C20_p1': 'first run: exit 2 (edit in progress); caught by FDF mode 4: the round trip in a process whose descriptor 0 is free',
+ 'C09_p3': 'first run: MISSED (the shallow-copy callback never gave up); DCOPY mode 2: the callback returns -1 on its k-th node without touching *dst',
+ 'C18_p2': 'first run: MISSED (nobody changed a node while others released it); mutate scenario: the owner re-registers userdata/destructor while the other threads get/put -- TSan sees the early read, and the destructor accounting is checked',
+ 'C14_p2': 'first run: MISSED twice (the comma locale was only ever installed by name, and then every configuration ran under the same environment); the reference now runs in a silent environment, all others with LC_ALL/LANG naming the comma locale, plus a "C by name" configuration under that environment',
+ 'C17_p1': 'caught by C06 (visitor form of delete-current-while-iterating)',
+ 'C08_p2': 'first run: MISSED (after a failed format change any of three outputs was accepted); the workload now requires exactly what the thread printed before the call',
+ 'C11_p1': 'first run: MISSED (own bytes were only handed back from offset 0); SSELF with an offset: a later, non-overlapping part of the own bytes',
+ 'C04_p1': 'first run: MISSED (the refused len=-2 call was only made on a fresh tokener); it is repeated after use + reset and must report position 0',
+ 'C10_p2': 'caught after \\r, \\v, \\f were added to the white space in front of numeric strings (same round)',
+ 'C12_p1': 'caught after ":" tokens were added to the malformed array indices (same round)',
+ 'C07_p3': 'caught after indices around SIZE_MAX/8 .. SIZE_MAX/2 were added to the must-fail puts (same round)',
+ 'C20_p2': 'caught after files were written under a custom double format with trailing zeros (same round)',
  'C17_n2': 'NOT CAUGHT, deliberately: same as C17_m1 (the callback resizes the array being visited; undocumented)',
  'C19_n2': 'NOT CAUGHT, deliberately: needs a caller that passes an unsigned length >= 2^31 through the printbuf_memappend_fast MACRO (2 GiB of source bytes); the function form and every int-typed length behave as before',
  'C05_n1': 'NOT CAUGHT, deliberately: needs json_object_set_userdata() on a text-retaining double, which leaves that node\'s serializer pointing at userdata that is not its text any more (the next serialization or deep copy of such a node reads the caller\'s pointer as a string) -- not a state the ownership property speaks about',
